@@ -189,7 +189,7 @@ func GenPlan(profile string, seed uint64, thorough bool) *Plan {
 	if r.Intn(10) == 0 {
 		p.Wide = []string{"nodes", "tables", "entities", "filters"}[r.Intn(4)]
 	}
-	if ((profile == "C03" || profile == "C06") && r.Intn(7) == 0) || (profile == "C13" && r.Intn(3) == 0) {
+	if ((profile == "C03" || profile == "C06" || profile == "C15") && r.Intn(7) == 0) || (profile == "C13" && r.Intn(6) == 0) {
 		p.Wide = "tables" // more than one page (32) of target tables in one relation node
 	}
 	if p.Wide == "tables" && len(p.Types) > 2 {
@@ -202,6 +202,7 @@ func GenPlan(profile string, seed uint64, thorough bool) *Plan {
 		p.Types[1].Late = false
 		p.DeadPermille = 0
 	}
+	tuneProfile(p, r, thorough)
 	if p.Wide != "" {
 		switch p.Wide {
 		case "entities":
@@ -217,6 +218,9 @@ func GenPlan(profile string, seed uint64, thorough bool) *Plan {
 			p.Weights["newbatch"] = 12
 			p.Weights["rm"] = 3
 			p.Weights["reset"] = 0
+			if profile == "C15" {
+				p.Weights["reset"] = 1
+			}
 			p.Weights["xchg"] = 6
 			p.EntityCap = 160 + r.Intn(60)
 			p.Steps += 450
@@ -225,7 +229,6 @@ func GenPlan(profile string, seed uint64, thorough bool) *Plan {
 			p.Steps += 100
 		}
 	}
-	tuneProfile(p, r, thorough)
 	return p
 }
 
@@ -256,7 +259,9 @@ func tuneProfile(p *Plan, r *Rng, thorough bool) {
 		p.DeadPermille = []int{50, 150, 300}[r.Intn(3)]
 	case "C06":
 		w["setrel"], w["rm"], w["batch"], w["new"] = 16, 18, 12, 18
-		p.EntityCap = 6 + r.Intn(24)
+		if p.Wide != "tables" {
+			p.EntityCap = 6 + r.Intn(24)
+		}
 		w["reset"] = 2
 		w["fnew"], w["freg"] = 6, 6
 		p.RelFilterPct = []int{30, 50, 70}[r.Intn(3)]
@@ -278,7 +283,22 @@ func tuneProfile(p *Plan, r *Rng, thorough bool) {
 		p.IllegalPermille = 0
 		p.LockedYield = []int{0, 30, 60}[r.Intn(3)]
 		p.ListenerChaos = true
-		if r.Intn(3) > 0 {
+		switch r.Intn(5) {
+		case 0:
+		case 1, 2:
+			// a listener that is not interested in everything: the removal-notification lock window must not depend on it
+			p.Listener = "restricted"
+			p.ListenerS = uint8(1 + r.Intn(63))
+			p.ListenerC = nil
+			if r.Intn(2) == 0 {
+				for i := 0; i < 1+r.Intn(2); i++ {
+					p.ListenerC = append(p.ListenerC, r.Intn(len(p.Types)))
+				}
+			}
+			for i := range p.Types {
+				p.Types[i].Late = false
+			}
+		default:
 			p.Listener = "all"
 		}
 		p.EntityCap = 6 + r.Intn(20)
@@ -332,7 +352,9 @@ func tuneProfile(p *Plan, r *Rng, thorough bool) {
 		p.Listener = "all"
 		p.CachedPermille = []int{300, 600, 900}[r.Intn(3)]
 		p.IllegalPermille = []int{0, 30}[r.Intn(2)]
-		p.EntityCap = 10 + r.Intn(40)
+		if p.Wide != "tables" {
+			p.EntityCap = 10 + r.Intn(40)
+		}
 	case "C19":
 		p.ListenerChaos = false
 		w["reset"] = 2
@@ -341,7 +363,7 @@ func tuneProfile(p *Plan, r *Rng, thorough bool) {
 	case "C14":
 		// pointer-carrying components, GC faults at boundaries and inside moves
 		p.GCPermille = []int{100, 250, 400}[r.Intn(3)]
-		np := 1 + r.Intn(4)
+		np := 1 + r.Intn(5)
 		for i := 0; i < np && i < len(p.Types); i++ {
 			p.Types[len(p.Types)-1-i] = TypeSpec{Kind: "ptr", Late: r.Intn(5) == 0}
 		}
@@ -362,7 +384,13 @@ func tuneProfile(p *Plan, r *Rng, thorough bool) {
 		w["fnew"], w["freg"] = 8, 8
 		w["setrel"], w["rm"] = 12, 12
 		p.RelFilterPct = []int{30, 50, 70}[r.Intn(3)]
-		p.EntityCap = 5 + r.Intn(20)
+		if p.Wide != "tables" {
+			p.EntityCap = 5 + r.Intn(20)
+		}
+		if r.Intn(8) == 0 {
+			p.ResTypes = ecs.MaskTotalBits
+			w["res"] = 8
+		}
 		p.CachedPermille = []int{300, 900}[r.Intn(2)]
 	case "C16":
 		w["regtype"] = 10
